@@ -274,6 +274,11 @@ class Container:
 
     def fillnumpy(self, data, weights=1.0):
         self._checkForCrossReferences()
+        # like fill(), count a row only if its weight is > 0: rows with a zero, negative or NaN weight are skipped
+        if isinstance(weights, numpy.ndarray):
+            weights = numpy.where(weights > 0.0, weights, 0.0)
+        elif not weights > 0.0:
+            return
         self._numpy(data, weights, shape=[None])
 
     def _checkNPQuantity(self, q, shape):
